@@ -83,6 +83,15 @@ func (m *DomainMatcher) Add(labels [][]byte) {
 	}
 }
 
+// shortLabelKey returns the map key of a label shorter than 24 bytes.
+// The last byte is the label length, so labels that only differ in
+// trailing zero bytes have different keys.
+func shortLabelKey(label []byte) (key [24]byte) {
+	copy(key[:23], label)
+	key[23] = byte(len(label))
+	return key
+}
+
 // labelNode can store dns labels.
 type labelNode struct {
 	// lazy init
@@ -92,13 +101,11 @@ type labelNode struct {
 
 func (n *labelNode) AddLeaf(label []byte) {
 	l := len(label)
-	if l <= 24 {
+	if l < 24 {
 		if n.s == nil {
 			n.s = make(map[[24]byte]*labelNode)
 		}
-		var key [24]byte
-		copy(key[:], label)
-		n.s[key] = nil
+		n.s[shortLabelKey(label)] = nil
 	} else {
 		if n.l == nil {
 			n.l = make(map[string]*labelNode)
@@ -109,9 +116,8 @@ func (n *labelNode) AddLeaf(label []byte) {
 
 func (n *labelNode) GetOrAddChild(label []byte) *labelNode {
 	l := len(label)
-	if l <= 24 {
-		var key [24]byte
-		copy(key[:], label)
+	if l < 24 {
+		key := shortLabelKey(label)
 		if child := n.s[key]; child != nil {
 			return child
 		}
@@ -136,10 +142,8 @@ func (n *labelNode) GetOrAddChild(label []byte) *labelNode {
 
 func (n *labelNode) GetChild(label []byte) (child *labelNode, ok bool) {
 	l := len(label)
-	if l <= 24 {
-		var key [24]byte
-		copy(key[:], label)
-		child, ok = n.s[key]
+	if l < 24 {
+		child, ok = n.s[shortLabelKey(label)]
 		return
 	}
 	child, ok = n.l[string(label)]
